@@ -179,7 +179,12 @@ var sweepSigma = func() []string {
 	for c := 0; c < 128; c++ {
 		out = append(out, string(rune(c)))
 	}
-	return append(out, "\u0080", "\u00a0", "\u00ff", "\u07ff", "\u0800", "\ufdd0", "\ufffd", "\uffff", "\U00010000", "\U0010ffff", "\xc0", "\xf8")
+	out = append(out, "\u0080", "\u00a0", "\u00ff", "\u07ff", "\u0800", "\ufdd0", "\ufffd", "\uffff", "\U00010000", "\U0010ffff", "\xc0", "\xf8")
+	// non-ASCII code points that some general-purpose library predicate or mapping treats like an ASCII one:
+	// case mappings landing in ASCII (KELVIN SIGN -> k, I WITH DOT -> i, LONG S -> S, DOTLESS I -> I), decimal
+	// digits (fullwidth, Arabic-Indic), letters (fullwidth A), white space (NEL, EM SPACE, LINE SEPARATOR,
+	// IDEOGRAPHIC SPACE), full stops (fullwidth, ideographic), SOFT HYPHEN, ZERO WIDTH JOINER
+	return append(out, "\u212a", "\u0130", "\u017f", "\u0131", "\uff10", "\uff19", "\u0663", "\uff21", "\uff46", "\u0085", "\u2003", "\u2028", "\u3000", "\uff0e", "\u3002", "\u00ad", "\u200d")
 }()
 
 var sweepSeeds = []string{
@@ -199,7 +204,7 @@ var sweepSeeds = []string{
 
 // forEachParseInput enumerates the declared (input, base) spaces shared by C01, C03, C04, C15 and C19:
 // raw-nobase = Prefixes x Sigma^<=k; raw-base = Sigma^<=kb x Bases; product = slot product with at most t
-// deviating slots x productBases; ascii-sweep = every one of 140 code points (all ASCII + boundary non-ASCII), every string/character literal of the current library source and v-1, v, v+1 of every integer literal, inserted/substituted at every position of 60 seeds (41 URLs exercising every component + 19 slot seeds whose placeholder is replaced by each token); edit1-wpt = the WPT inputs (with their bases) and their edit-distance-1 ball.
+// deviating slots x productBases; ascii-sweep = every one of 157 code points (all ASCII + boundary non-ASCII + non-ASCII code points that library predicates/mappings treat like ASCII ones), every string/character literal of the current library source and v-1, v, v+1 of every integer literal, inserted/substituted at every position of 60 seeds (41 URLs exercising every component + 19 slot seeds whose placeholder is replaced by each token); edit1-wpt = the WPT inputs (with their bases) and their edit-distance-1 ball.
 func forEachParseInput(c *fw.Ctx, k, kb, t int, longEdits bool, g func(label, base, input string)) {
 	f := func(label, base, input string) {
 		if c.ParseKind != "" {
